@@ -131,6 +131,8 @@ func Regexp(pat string, mode Mode) (string, error) {
 type stringLexer struct {
 	s string
 	i int
+
+	groups int // number of extended pattern groups being parsed
 }
 
 func (sl *stringLexer) next() rune {
@@ -174,8 +176,12 @@ func regexpNext(sb *strings.Builder, sl *stringLexer, mode Mode) error {
 			if sl.peekNext() != '(' {
 				break
 			}
-			start := sl.i - 1       // position of the operator
-			sb.WriteRune(sl.next()) // (
+			start := sl.i - 1 // position of the operator
+			// The group is built separately, as without a closing parenthesis
+			// the operator and the parenthesis are literal characters.
+			var group strings.Builder
+			group.WriteRune(sl.next()) // (
+			sl.groups++
 		nestedLoop:
 			for {
 				switch sl.peekNext() {
@@ -183,16 +189,23 @@ func regexpNext(sb *strings.Builder, sl *stringLexer, mode Mode) error {
 					break nestedLoop
 				case '|':
 					// extended operators support a list of "or" separated expressions
-					sb.WriteRune(sl.next())
+					group.WriteRune(sl.next())
 					continue
 				}
-				if err := regexpNext(sb, sl, mode); err == io.EOF {
-					break
+				if err := regexpNext(&group, sl, mode); err == io.EOF {
+					if sl.groups--; sl.groups > 0 {
+						return io.EOF // the enclosing group isn't closed either
+					}
+					sl.i = start + 1
+					sb.WriteString(regexp.QuoteMeta(string(op)))
+					return nil
 				} else if err != nil {
 					return err
 				}
 			}
-			sb.WriteRune(sl.next()) // )
+			sl.groups--
+			group.WriteRune(sl.next()) // )
+			sb.WriteString(group.String())
 			if op == '!' {
 				return &NegExtGlobError{Groups: []NegExtGlobGroup{{Start: start, End: sl.i}}}
 			}
